@@ -25,57 +25,53 @@ def ustr (s : String) : String := if s = "" then "_" else s
 
 def parseFlow (s : String) : Option FlowRule :=
   match s.splitOn "," with
-  | [res, tcs, cb, th2, rel, ref, maxQ, wp, cf, st, lm, hm, ml, mh] => do
-    some { res := str res, tcs := ← tcs.toInt?, cb := ← cb.toInt?, th2 := ← th2.toInt?, rel := ← rel.toInt?, ref := str ref,
+  | [res, tcs, cb, th2, rel, ref, maxQ, wp, cf, st, lm, hm, ml, mh, id] => do
+    some { id := str id, res := str res, tcs := ← tcs.toInt?, cb := ← cb.toInt?, th2 := ← th2.toInt?, rel := ← rel.toInt?, ref := str ref,
            maxQ := ← maxQ.toNat?, wuPeriod := ← wp.toNat?, wuCf := ← cf.toNat?, statMs := ← st.toNat?,
            lowMem := ← lm.toInt?, highMem := ← hm.toInt?, memLow := ← ml.toInt?, memHigh := ← mh.toInt? }
   | _ => none
 def showFlow (r : FlowRule) : String :=
-  s!"{ustr r.res},{r.tcs},{r.cb},{r.th2},{r.rel},{ustr r.ref},{r.maxQ},{r.wuPeriod},{r.wuCf},{r.statMs},{r.lowMem},{r.highMem},{r.memLow},{r.memHigh}"
+  s!"{ustr r.res},{r.tcs},{r.cb},{r.th2},{r.rel},{ustr r.ref},{r.maxQ},{r.wuPeriod},{r.wuCf},{r.statMs},{r.lowMem},{r.highMem},{r.memLow},{r.memHigh},{ustr r.id}"
 
 def parseIso (s : String) : Option IsoRule :=
   match s.splitOn "," with
-  | [res, m, th] => do some { res := str res, metric := ← m.toInt?, th := ← th.toNat? }
+  | [res, m, th, id] => do some { id := str id, res := str res, metric := ← m.toInt?, th := ← th.toNat? }
   | _ => none
-def showIso (r : IsoRule) : String := s!"{ustr r.res},{r.metric},{r.th}"
+def showIso (r : IsoRule) : String := s!"{ustr r.res},{r.metric},{r.th},{ustr r.id}"
 
 def parseHot (s : String) : Option HotRule :=
   match s.splitOn "," with
-  | [res, m, cb, pi, pk, th, mq, bc, du, cap, it] => do
-    some { res := str res, metric := ← m.toInt?, cb := ← cb.toInt?, pidx := ← pi.toInt?, pkey := str pk, th := ← th.toInt?,
+  | [res, m, cb, pi, pk, th, mq, bc, du, cap, it, id] => do
+    some { id := str id, res := str res, metric := ← m.toInt?, cb := ← cb.toInt?, pidx := ← pi.toInt?, pkey := str pk, th := ← th.toInt?,
            maxQ := ← mq.toInt?, burst := ← bc.toInt?, dur := ← du.toInt?, cap := ← cap.toInt?, items := ← it.toNat? }
   | _ => none
-/-- canonical: `BurstCount` only means something (and is only compared by `Rule.Equals`) under Reject,
-    `MaxQueueingTimeMs` only under Throttling; the other one is printed as `*` -/
 def showHot (r : HotRule) : String :=
-  let mq := if r.cb = 1 then toString r.maxQ else "*"
-  let bc := if r.cb = 0 then toString r.burst else "*"
-  s!"{ustr r.res},{r.metric},{r.cb},{r.pidx},{ustr r.pkey},{r.th},{mq},{bc},{r.dur},{r.cap},{r.items}"
+  s!"{ustr r.res},{r.metric},{r.cb},{r.pidx},{ustr r.pkey},{r.th},{r.maxQ},{r.burst},{r.dur},{r.cap},{r.items},{ustr r.id}"
 
 def parseCb (s : String) : Option CbRule :=
   match s.splitOn "," with
-  | [res, st, rt, mr, si, bk, mx, th2, pn] => do
-    some { res := str res, strategy := ← st.toNat?, retryMs := ← rt.toNat?, minReq := ← mr.toNat?, statMs := ← si.toNat?,
+  | [res, st, rt, mr, si, bk, mx, th2, pn, id] => do
+    some { id := str id, res := str res, strategy := ← st.toNat?, retryMs := ← rt.toNat?, minReq := ← mr.toNat?, statMs := ← si.toNat?,
            buckets := ← bk.toNat?, maxRt := ← mx.toNat?, th2 := ← th2.toInt?, probe := ← pn.toNat? }
   | _ => none
 def showCb (r : CbRule) : String :=
-  s!"{ustr r.res},{r.strategy},{r.retryMs},{r.minReq},{r.statMs},{r.buckets},{r.maxRt},{r.th2},{r.probe}"
+  s!"{ustr r.res},{r.strategy},{r.retryMs},{r.minReq},{r.statMs},{r.buckets},{r.maxRt},{r.th2},{r.probe},{ustr r.id}"
 
 def parseSys (s : String) : Option SysRule :=
   match s.splitOn "," with
-  | [m, th2, st] => do some { metric := ← m.toNat?, th2 := ← th2.toInt?, strategy := ← st.toInt? }
+  | [m, th2, st, id] => do some { id := str id, metric := ← m.toNat?, th2 := ← th2.toInt?, strategy := ← st.toInt? }
   | _ => none
-def showSys (r : SysRule) : String := s!"{r.metric},{r.th2},{r.strategy}"
+def showSys (r : SysRule) : String := s!"{r.metric},{r.th2},{r.strategy},{ustr r.id}"
 
-/-- `<pct2>;<recMs>;<cb rule or ->` -/
+/-- `<pct2>;<recMs>;<active 0|1>;<recycleS>;<maxAttempts>;<cb rule or ->` -/
 def parseOut (s : String) : Option OutRule :=
   match s.splitOn ";" with
-  | [p, rm, c] => do
+  | [p, rm, ac, rc, ma, c] => do
     let inner ← if c = "-" then some none else (parseCb c).map some
-    some { pct2 := ← p.toInt?, recMs := ← rm.toNat?, inner := inner }
+    some { pct2 := ← p.toInt?, recMs := ← rm.toNat?, active := ac == "1", recycleS := ← rc.toNat?, maxAtt := ← ma.toNat?, inner := inner }
   | _ => none
 def showOut (r : OutRule) : String :=
-  s!"{r.pct2};{r.recMs};" ++ (match r.inner with | some c => showCb c | none => "-")
+  s!"{r.pct2};{r.recMs};{if r.active then 1 else 0};{r.recycleS};{r.maxAtt};" ++ (match r.inner with | some c => showCb c | none => "-")
 
 /-- `<n> <rule>*n` → the list (nil = `-`) -/
 def parseList {R : Type} (p : String → Option R) (ts : List String) : Option (List (Option R)) :=
@@ -95,6 +91,7 @@ structure Slot (R : Type) where
   st : MState R := MState.init
   L : String → List (Option R) := fun _ => []     -- spec side
   Lkeys : List String := []
+  seen : List R := []                             -- spec side: every rule object handed over in this case
 
 section
 variable {R : Type} [DecidableEq R]
@@ -117,9 +114,20 @@ def claimRes (sl : Slot R) (res : String) (rules : List (Option R)) : String :=
     if (sl.L res).map (normIn M res) == sl.L res then "unchanged" else "?known:normalised-rule-reload:unchanged"
   else if (sl.L res).map (normIn M res) == rules then "?" else "changed"
 
+/-- inside the region of `stale-equal-rule`: a rule in force for `k` is equal, for the module's own equality, to a
+    different rule object handed over earlier (whose controller may have been kept) -/
+def stale (sl : Slot R) (k : String) : Bool :=
+  !sl.M.pubValid && (sl.specEnf k).any fun r => sl.seen.any fun o =>
+    let o' := if built sl.M k o then sl.M.norm o else o
+    decide (sl.M.canon o' = sl.M.canon r) && decide (o' ≠ r)
+
 /-- inside the region of `cb-getter-reports-unbuilt`: some valid rule handed over for `k` got no breaker -/
 def unbuilt (sl : Slot R) (k : String) : Bool :=
   sl.M.pubValid && (validList sl.M (sl.L k)).any fun r => !built sl.M k r
+
+def wrapGet (sl : Slot R) (ks : List String) (v : String) : String :=
+  if ks.any (unbuilt sl) then "?known:cb-getter-reports-unbuilt:" ++ v
+  else if ks.any (stale sl) then "?known:stale-equal-rule:" ++ v else v
 
 def okOrErr (o : Outcome) : String := if o == .err || o == .changedErr || o == .panic then "err" else "ok"
 
@@ -133,7 +141,7 @@ def Slot.handle (sl : Slot R) (spec : Bool) (ts : List String) : Option (Slot R 
     | some rules =>
       if spec then
         let c := claimAll sl rules
-        ({ sl with L := latestStep M sl.L (.loadAll rules), Lkeys := ruleKeys M rules }, some c)
+        ({ sl with L := latestStep M sl.L (.loadAll rules), Lkeys := ruleKeys M rules, seen := sl.seen ++ rules.filterMap id }, some c)
       else
         let (s', o) := loadAll M sl.st rules
         ({ sl with st := s' }, some o.toString)
@@ -144,7 +152,7 @@ def Slot.handle (sl : Slot R) (spec : Bool) (ts : List String) : Option (Slot R 
       let res := str res
       if spec then
         let c := claimRes sl res rules
-        ({ sl with L := latestStep M sl.L (.loadRes res rules), Lkeys := res :: sl.Lkeys }, some c)
+        ({ sl with L := latestStep M sl.L (.loadRes res rules), Lkeys := res :: sl.Lkeys, seen := sl.seen ++ rules.filterMap id }, some c)
       else
         let (s', o) := loadRes M sl.st res rules
         ({ sl with st := s' }, some o.toString)
@@ -159,13 +167,13 @@ def Slot.handle (sl : Slot R) (spec : Bool) (ts : List String) : Option (Slot R 
     if spec then
       let ks := sl.Lkeys.eraseDups
       let v := showList (sortStrs ((ks.flatMap sl.specEnf).map sl.shw))
-      (sl, some (if ks.any (unbuilt sl) then "?known:cb-getter-reports-unbuilt:" ++ v else v))
+      (sl, some (wrapGet sl ks v))
     else (sl, some (showList (sortStrs ((getAll sl.st).map sl.shw))))
   | ["getres", _, res] => some <|
     let res := str res
     if spec then
       let v := showList ((sl.specEnf res).map sl.shw)
-      (sl, some (if unbuilt sl res then "?known:cb-getter-reports-unbuilt:" ++ v else v))
+      (sl, some (wrapGet sl [res] v))
     else (sl, some (showList ((getRes sl.st res).map sl.shw)))
   | _ => none
 
